@@ -4,5 +4,5 @@ CONSTANTS
   RouteN = 3
   MaxDepth = 0
 SPECIFICATION TSpec
-INVARIANTS AllAgree TraceWorldsOk
+INVARIANTS AllAgree DriftNote TraceWorldsOk
 CHECK_DEADLOCK FALSE
